@@ -142,7 +142,7 @@ def frame_oracle(kind, ops, obs):
         if k == 'clone' and op[1] != op[2]:
             src, dst = sc.SYM[op[1]], sc.SYM[op[2]]
             effective = kind == 'shared' or dst not in stored
-            if src in prev and all(sc.pget(n[1], sc.NID) != 'ABSENT' for n in prev[src][0]):
+            if src in prev and all(sc.pget(n[1], sc.NID) not in ('ABSENT', None) for n in prev[src][0]):
                 why = ('clone of existing graph %s raised %s' % (op[1], o['r'][2])) if not ok else \
                     clone_content(kind, prev[src], cur.get(dst, [[], []]), dst)
                 if why and effective:
